@@ -4,7 +4,8 @@
    rules: its own parts walk the path parts (Direct, with the converted arguments), or all but its
    trailing slash do (Slash for strict rules). *)
 From Coq Require Import ZArith.
-From Wz Require Import lib.Bytes C03.Gen C03.Trie C03.Model C03.Proofs.
+From Coq Require Import Sorting.Permutation.
+From Wz Require Import lib.Bytes C03.Gen C03.Trie C03.TrieFacts C03.Model C03.Proofs C03.PrioProofs.
 Open Scope N_scope.
 
 (* a reported match is justified by a rule of the map that admits the request path directly, with
@@ -92,6 +93,48 @@ Theorem C03_served_never_refused : forall h m a p me r,
   \/ (exists e, map_match h m a p me = Raised e).
 Proof. exact served_never_refused. Qed.
 Print Assumptions C03_served_never_refused.
+
+(* priority.  A candidate (k, r, caps) is a way rule r takes part in the search for the path parts P
+   (cand_of: its parts consume P / consume P but for one trailing slash / all but its final slash consume P);
+   it serves the request when it admits for the method and protocol.  prio_lt is the documented order on
+   the candidates' transition sequences: at the first difference a literal part beats a variable one, among
+   variable parts the lighter Weighting (more / longer literal text around the variable, then int/float <
+   string/any/uuid < path) wins, the late trailing-slash clause comes last, a proper prefix first; two
+   different variable parts of equal Weighting are NOT ordered (insertion order decides: the ties of DESIGN.md).
+   The reported rule is the outcome of a serving candidate that no serving candidate strictly precedes. *)
+Theorem C03_priority : forall h m a p me r vs,
+  map_match h m a p me = Match r vs ->
+  exists k caps v, prio_minimal m (upper me) (a_websocket a) (request_parts m a p) k r caps
+    /\ cand_adm_of m k r caps = ADirect (list (str * value)) v /\ vs = dict_update v (r_defaults r).
+Proof. exact match_priority. Qed.
+Print Assumptions C03_priority.
+
+(* ... independent of the insertion order: for any permutation m' of the rules (same map settings) the
+   rule reported by m' is priority-minimal for the relation and the serving candidates of m *)
+Theorem C03_priority_any_order : forall h m m' a p me r vs,
+  same_config m m' -> map_match h m' a p me = Match r vs ->
+  exists k caps v, prio_minimal m (upper me) (a_websocket a) (request_parts m a p) k r caps
+    /\ cand_adm_of m k r caps = ADirect (list (str * value)) v /\ vs = dict_update v (r_defaults r).
+Proof. exact priority_any_order. Qed.
+Print Assumptions C03_priority_any_order.
+
+Example C03_priority_example :
+  same_config ex_map (mk_map [ex_r1; ex_r0])
+  /\ map_match no_hooks (mk_map [ex_r1; ex_r0]) ex_adapter [47; 49; 50; 51] GET = Match ex_r0 [([97], VInt 123)]
+  /\ map_match no_hooks ex_map ex_adapter [47; 49; 50; 51] GET = Match ex_r0 [([97], VInt 123)].
+Proof. exact ex_priority_orders. Qed.
+Print Assumptions C03_priority_example.
+
+(* the order on converters, with the weights of the current source: int and float before string,
+   string before path, string and any tie *)
+Theorem C03_converter_order :
+  dpart_wlt (ex_dpart (CInt 0 None None false)) (ex_dpart (CStr None 1 None)) = true
+  /\ dpart_wlt (ex_dpart (CFloat false)) (ex_dpart (CStr None 1 None)) = true
+  /\ dpart_wlt (ex_dpart (CStr None 1 None)) (ex_dpart CPath) = true
+  /\ dpart_wlt (ex_dpart (CStr None 1 None)) (ex_dpart (CAny [[97]])) = false
+  /\ dpart_wlt (ex_dpart (CAny [[97]])) (ex_dpart (CStr None 1 None)) = false.
+Proof. exact ex_prio_converters. Qed.
+Print Assumptions C03_converter_order.
 
 (* the regex texts, weights and part_isolating flags of the current source are the ones the
    language predicates and the priority order of the model stand for *)
